@@ -63,8 +63,13 @@ func run(c hx.Config) error {
 		case ob.OK:
 			impl = "ok"
 		}
-		o.Emit("c02 "+cs.Body+" # "+s.Kind+" "+how+" "+cx.Repro(s, in), impl)
 		o.Count(s.Kind + ":" + how + ":" + impl)
+		if s.Kind == "du" && ob.Panic == "" {
+			// the index the real constructor built (DiscriminatorMap()), compared with the one the model builds from
+			// what the options declare
+			impl += " dm=" + s.DiscMapTok()
+		}
+		o.Emit("c02 "+cs.Body+" # "+s.Kind+" "+how+" "+cx.Repro(s, in), impl)
 	}
 	for _, kind := range kinds {
 		for i := range perKind {
@@ -118,6 +123,16 @@ func run(c hx.Config) error {
 					emit(s, &t, "ptr")
 				}
 			}
+			if s.Kind == "du" {
+				// the discriminator replaced by declared / undeclared values of every Go type, and removed
+				for _, m := range s.Members {
+					if v, ok := m.Valid(r).(map[string]any); ok {
+						for _, in := range s.DUInputs(v) {
+							emit(s, in, "du-disc")
+						}
+					}
+				}
+			}
 			for _, w := range cx.WrongShapes() {
 				emit(s, w, "shape")
 			}
@@ -130,6 +145,25 @@ func run(c hx.Config) error {
 				}
 			}
 		}
+	}
+	// discriminated unions whose option list is ill-formed (a value declared twice / no value declared)
+	nBroken := 6
+	if c.Thorough() {
+		nBroken = 60
+	}
+	for i := range nBroken {
+		s := cx.GenBrokenDU(r, 1+i%2)
+		o.Count("du:broken-construction")
+		for _, m := range s.Members {
+			if v, ok := m.Valid(r).(map[string]any); ok {
+				emit(s, v, "du-broken-valid")
+				for _, in := range s.DUInputs(v)[:6] {
+					emit(s, in, "du-broken-disc")
+				}
+			}
+		}
+		emit(s, nil, "du-broken-nil")
+		emit(s, "str", "du-broken-shape")
 	}
 	// objects that can reject unknown keys AND have absent-able fields: drop k fields, add j unknown keys
 	nPolicy := 60
